@@ -38,6 +38,15 @@ PROP = dict(
         "Honest (each delivered answer's payload is a function of its id) is the premise of demux_own_answer / demux_not_other; demux itself has no premise",
     ],
     partial=[
+        "idle-timer behaviour (a healthy connection on which only pings/pongs flow must not be re-dialled; an answer arriving after > 10 s "
+        "must not be lost): the 10 s silence and 3 s ping periods are constants inside liteclient/connection.go, so the scenario "
+        "go.client.idle runs in REAL TIME (32 s) in the thorough tier only (it is the first line of the thorough generator, so the "
+        "failing-input search of a quick run reaches it when an obligation breaks); the quick tier covers it by the regenerated obligation "
+        "reader_idle_timer_is_fresh_for_every_packet only. The transition system's `silence` action is enabled whenever a reader runs "
+        "(over-approximation): no theorem about the timer",
+        "timeout_is_min is about effectiveDeadline (min of caller deadline and start + client timeout); the untimed transition system lets "
+        "`timeout` fire at any moment. Tie: obligation request_applies_client_timeout_first + go.client.deadlines (caller context none / "
+        "shorter / equal / longer / much longer / cancelled mid-flight, never-answered calls)",
         "data-race freedom: NOT a theorem. Supported only by the thorough-tier op go.client.race (harness rebuilt with -race, 40 chaos + 40 "
         "deterministic scenarios, any DATA RACE report fails); the quick tier does not cover it",
         "wall-clock oracles are judged relative to a scheduling canary (a goroutine sleeping 5 ms in a loop): tolerance 1 s + 5 x the worst "
